@@ -98,11 +98,15 @@ def judge(case, obs, resps):
 T_STATES = ["aa:aa;10.0.0.1;alpha\nbb:bb;10.0.0.2;beta\n",
             "aa:aa;10.0.0.9;alpha\ncc:cc;10.0.0.1;gamma\n",
             "dd:dd;10.0.0.1;beta\n"]
+# state 0 is the initial tree; every later state differs from it in exactly ONE file: a call that
+# overlaps a change of several files may legitimately see some of them old and some new (there is
+# no snapshot across files), the property is about a file being seen in one state per call
 Y_STATES = [
     {"top.yaml": "'*':\n  - common\n'alpha':\n  - a\n", "common.yaml": "k: 1\ninclude:\n  - shared\nm: 1\n",
      "a.yaml": "include:\n  - shared\nz: 1\n", "shared.yaml": "x: 1\n"},
     {"shared.yaml": "y: 2\n"},
-    {"top.yaml": "'*':\n  - a\n", "a.yaml": "q: 5\n"},
+    {"a.yaml": "include:\n  - shared\nq: 5\n"},
+    {"top.yaml": "'*':\n  - a\n"},
 ]
 
 
@@ -129,7 +133,7 @@ def scenarios(rng, tier):
                     "threads": ths})
     for _ in range(2 if tier == "quick" else 30):
         ths = [[["get", rng.choice(["alpha", "beta"])] for _ in range(rng.randrange(1, 3))] for _ in range(rng.choice([1, 2]))]
-        ths.append([["write", rng.choice([1, 2])]])
+        ths.append([["write", rng.choice([1, 2, 3])]])
         out.append({"comp": "yaml", "cfg": {"states": Y_STATES, "cache_size": rng.choice([1, 4])}, "threads": ths})
     return out
 
